@@ -26,7 +26,11 @@ Frozen parameters (repaired in /repo a845d9f: before, any parameter with require
 LM.step raise in update_parameter): the witnesses of that defect are directed regression cases, both parameter
 orders and both optimizers; a recurrence is a VIOLATION (tie: raise-disagreement; oracle: frozen-raises).
 Expanded weights (repaired in /repo f84fc28: normalize_RWJ raised for a documented B*N*d*d weight with stride 0): witnesses are
-regression cases under the key normalize_RWJ:expanded-weight; stride-0 weights of every documented shape are generated."""
+regression cases under the key normalize_RWJ:expanded-weight; stride-0 weights of every documented shape are generated.
+Entry points (round 5): the judged step is made through optimizer.step or through its documented equivalents - StopOnPlateau.optimize(input,
+target, weight) ("the above arguments are sent to optimizers") and the documented loop `while scheduler.continual(): loss = optimizer.step(...);
+scheduler.step(loss)` - with a budget of 1 or 2 optimizer steps; with 2, a hook on the optimizer object re-reads J, R and the parameters and
+empties the recorders right before every further step, so the judged step is the last one of the call (same oracle, keys scheduler.<entry>:...)."""
 import io, contextlib, math, random, json
 import math
 from ..common import *
@@ -40,7 +44,8 @@ RULE = ('case = (optimizer GN|LM, 1-3 parameters of kinds Euclid / algebra so3,s
         'Constant, Adaptive, TrustRegion, with / without bounds of their own) with damping 2^-30..2^10, min/max/reject given or left to their defaults, clamps '
         'active / inactive, vectorize on/off, target on/off, input as tensor / tuple / list / dict, step() arguments positional / keyword / omitted, '
         'contiguous / strided / expanded storage of parameters, targets and weights, judged call = first or second call on the optimizer object (after a '
-        'call with another step weight / target)); every argument tensor is compared bit for bit after the call; directed block first, '
+        'call with another step weight / target), entry point = optimizer.step | StopOnPlateau.optimize(input, target, weight) | the documented '
+        'scheduler loop, with a budget of 1-2 optimizer steps (judged: the last one)); every argument tensor is compared bit for bit after the call; directed block first, '
         'then random; one evaluation per trial of a call; non-trivial = a trial with a non-zero step; distinct by full spec')
 
 ALG = ['so3', 'se3', 'rxso3', 'sim3']
@@ -344,20 +349,41 @@ def _tensors(x):
     return [x]
 
 
-def call_step(opt, spec, inp, target, weight):
-    """opt.step in the spec's call form: positional (input[, target]) + weight keyword, or everything by keyword;
-    an absent target / weight is omitted or given as an explicit None"""
-    with contextlib.redirect_stdout(io.StringIO()):
+def call_step(opt, spec, inp, target, weight, steps=1):
+    """opt.step (or its documented equivalents scheduler.optimize / the scheduler loop, spec['entry']) in the spec's call form:
+    positional (input[, target]) + weight keyword, or everything by keyword; an absent target / weight is omitted or given as
+    an explicit None"""
+    def call(f):
         if spec.get('call_form') == 'kw':
             kw = dict(input=inp, target=target, weight=weight)
             if spec.get('omit_none'):
                 kw = {k: v for k, v in kw.items() if v is not None}
-            return float(opt.step(**kw))
+            return f(**kw)
         if spec.get('call_form') == 'pos3':
-            return float(opt.step(inp, target, weight))
+            return f(inp, target, weight)
         if weight is not None:
-            return float(opt.step(inp, target, weight=weight))
-        return float(opt.step(inp, target) if (target is not None or not spec.get('omit_none')) else opt.step(inp))
+            return f(inp, target, weight=weight)
+        return f(inp, target) if (target is not None or not spec.get('omit_none')) else f(inp)
+    entry = spec.get('entry') or 'step'
+    with contextlib.redirect_stdout(io.StringIO()):
+        if entry == 'step':
+            return float(call(opt.step))
+        # the documented second entry points: a StopOnPlateau scheduler driving the same optimizer, either through
+        # scheduler.optimize(input, target, weight) ("the above arguments are sent to optimizers") or through the documented
+        # user loop `while scheduler.continual(): loss = optimizer.step(...); scheduler.step(loss)`; `steps` optimizer steps
+        # at most (fewer when the controller stops earlier), every one of them with the SAME arguments
+        from pypose.optim.scheduler import StopOnPlateau
+        skw = dict(spec.get('sched_args') or {})
+        sch = StopOnPlateau(opt, steps, **skw) if spec.get('call_form') == 'pos3' else StopOnPlateau(optimizer=opt, steps=steps, **skw)
+        if entry == 'optimize':
+            call(sch.optimize)
+        else:
+            n = 0
+            while sch.continual() and n < steps + 2:
+                loss = call(opt.step)
+                sch.step(loss)
+                n += 1
+        return float(opt.loss)
 
 
 def execute(pp, torch, spec):
@@ -413,9 +439,31 @@ def execute(pp, torch, spec):
     # non-mutation: every tensor handed to the optimizer (input, target, both weights) is bit-identical afterwards
     args = dict(input=_tensors(inp), target=_tensors(target), weight_init=_tensors(w_init), weight_step=_tensors(w_step))
     snaps = {k: [t.detach().clone() for t in v] for k, v in args.items()}
+    nsteps = spec.get('sched_steps', 1) if (spec.get('entry') or 'step') != 'step' else 1
+    if nsteps > 1:
+        # several optimizer steps inside one scheduler call: the judged step is the LAST one the scheduler made; right before
+        # every further optimizer.step the Jacobian / residuals / parameters are re-read and the recorders are emptied
+        orig_step, made = opt.step, [0]
+
+        def hooked(*a, **k):
+            made[0] += 1
+            if made[0] > nsteps:
+                raise RuntimeError('the scheduler asked for optimizer step %d with a budget of steps=%d' % (made[0], nsteps))
+            if made[0] > 1:
+                with torch.enable_grad():
+                    J2 = pp.optim.functional.modjac(opt.model, input=(inp, target), flatten=False, vectorize=spec['vectorize'])
+                R2 = opt.model(inp, target)
+                rec.update(J=[[j.detach().clone() for j in Jr] for Jr in J2], R=[r.detach().clone() for r in R2], P0=snapshot(net))
+                rs.log, rs.failed = [], 0
+                if rst is not None:
+                    rst.log = []
+                for rc in recs:
+                    rc.log = []
+            return orig_step(*a, **k)
+        opt.step = hooked
     if raised is None:
         try:
-            rec['ret'] = call_step(opt, spec, inp, target, w_step)
+            rec['ret'] = call_step(opt, spec, inp, target, w_step, steps=nsteps)
         except Raise:
             rec['raised'] = 'scripted'
         except Exception as e:       # noqa
@@ -677,15 +725,30 @@ def documented_system(pp, torch, np, spec, rec):
     return Jn, Rn, W
 
 
-def close_arr(np, got, exp, rel=1e-12):
+def close_arr(np, got, exp, rel=1e-12, mag=None):
+    """entrywise comparison; `mag` = the sum of the magnitudes of the terms of every entry (|W||J|, |J|^T|W||R|, ...): an entry that
+    is the result of cancellation (b = -J^T W R at a stationary point, e.g. the second step of a scheduler call on a linear model) is
+    only defined up to the forward error n eps mag of the product, in whatever order it is summed"""
     got, exp = np.asarray(got, dtype=float), np.asarray(exp, dtype=float)
     if got.shape != exp.shape:
         return False
-    return bool(np.all(np.abs(got - exp) <= rel * (np.abs(exp) + np.max(np.abs(exp), initial=0.0) * 1e-2) + 1e-300))
+    tol = rel * (np.abs(exp) + np.max(np.abs(exp), initial=0.0) * 1e-2) + 1e-300
+    if mag is not None:
+        tol = tol + 3e-14 * np.asarray(mag, dtype=float).reshape(exp.shape)
+    return bool(np.all(np.abs(got - exp) <= tol))
 
 
 def oracle(pp, torch, spec, rec=None):
     """the clauses of C07 checked directly on the implementation; None if they hold"""
+    why = _oracle(pp, torch, spec, rec)
+    if why and (spec.get('entry') or 'step') != 'step':
+        why += ' [the step was made through the documented equivalent entry point %s of StopOnPlateau(optimizer, steps=%d%s) with the same input / target / weight]' % (
+            'scheduler.optimize(input, target, weight)' if spec['entry'] == 'optimize' else '`while scheduler.continual(): loss = optimizer.step(...); scheduler.step(loss)`',
+            spec.get('sched_steps', 1), ''.join(', %s=%r' % kv for kv in sorted((spec.get('sched_args') or {}).items())))
+    return why
+
+
+def _oracle(pp, torch, spec, rec=None):
     import numpy as np
     rec = rec or execute(pp, torch, spec)
     name = spec['opt']
@@ -720,12 +783,23 @@ def oracle(pp, torch, spec, rec=None):
         e = trials[0]
         A = Jn if W is None else W @ Jn
         b = -Rn if W is None else -(W @ Rn)
-        if not close_arr(np, e['A'].numpy(), A):
+        aW = None if W is None else np.abs(W)
+        if not close_arr(np, e['A'].numpy(), A, mag=(np.abs(Jn) if W is None else aW @ np.abs(Jn))):
             return 'system:A: the matrix given to the solver is not W J'
-        if not close_arr(np, e['b'].numpy().reshape(-1), b):
+        if not close_arr(np, e['b'].numpy().reshape(-1), b, mag=(np.abs(Rn) if W is None else aW @ np.abs(Rn))):
             return 'system:b: the right-hand side given to the solver is not -W R'
         D = e['D'].numpy().reshape(-1)
-        if not scripted:
+        judged = not scripted
+        atol = (spec.get('solver_args') or {}).get('atol') if sname == 'PINV' else None
+        if judged and atol:
+            # a configured ABSOLUTE cut-off (PINV(atol): singular values below it are treated as zero) is meant to lie far below the
+            # scale of the system; where a kernel has scaled W J down to the cut-off (e.g. sqrt(rho') ~ 1e-21 far out in the tail of a
+            # redescending kernel) the configured solver truncates on purpose and "D solves W J d = -W R" is not what it documents
+            sv = np.linalg.svd(A, compute_uv=False)
+            live = [x for x in sv if x > 1e-15 * (sv[0] if len(sv) else 0.0) * max(A.shape)]
+            if not live or min(live) < 1e3 * atol:
+                judged = False
+        if judged:
             g = A.T @ (A @ D - b)
             nA = np.linalg.norm(A, 2)
             if np.linalg.norm(g) > 1e-7 * (nA * nA * np.linalg.norm(D) + nA * np.linalg.norm(b)) + 1e-300:
@@ -738,12 +812,17 @@ def oracle(pp, torch, spec, rec=None):
                 gray = [i for i in range(len(S)) if 1e-15 * smax * max(A.shape) < S[i] < 1e-6 * smax]
                 if sure_null and not gray:
                     comp = np.linalg.norm(Vt[sure_null] @ D)
-                    if comp > 1e-6 * max(np.linalg.norm(D), 1e-300):
+                    # the computed minimum-norm solution carries round-off of the order eps |b| / s_min(A) in every direction
+                    # (it is all there is when the parameters already are at the minimum: second step on a linear model)
+                    smin = min(x for x in S if x > 1e-15 * smax * max(A.shape)) if smax > 0 else 1.0
+                    if comp > 1e-6 * max(np.linalg.norm(D), 1e-300) + 1e-9 * np.linalg.norm(b) / smin:
                         return 'solve:gn-minnorm: D is not the minimum-norm least-squares solution (component in null(A): %.3g of |D| = %.3g)' % (comp, np.linalg.norm(D))
         why = moved_by(spec, rec['P0'], rec['final'], [float(v) for v in D], train_only=True)
         return why
     # LM
     JT = Jn.T if W is None else Jn.T @ W
+    aJT = np.abs(Jn).T if W is None else np.abs(Jn).T @ np.abs(W)
+    magA0, magb = aJT @ np.abs(Jn), aJT @ np.abs(Rn)
     A0 = JT @ Jn
     dg = np.clip(np.diag(A0).copy(), spec.get('min', 1e-6), spec.get('max', 1e32))
     b = -(JT @ Rn)
@@ -752,9 +831,9 @@ def oracle(pp, torch, spec, rec=None):
         mult = mult * (1.0 + e['damping'])
         A = A0.copy()
         np.fill_diagonal(A, dg * mult)
-        if not close_arr(np, e['A'].numpy(), A):
+        if not close_arr(np, e['A'].numpy(), A, mag=magA0 * mult):
             return 'system:A: trial %d: the matrix given to the solver is not clampdiag(J^T W J) with the diagonal times prod(1+lambda)' % (k + 1)
-        if not close_arr(np, e['b'].numpy().reshape(-1), b):
+        if not close_arr(np, e['b'].numpy().reshape(-1), b, mag=magb):
             return 'system:b: trial %d: the right-hand side given to the solver is not -J^T W R' % (k + 1)
         D = e['D'].numpy().reshape(-1)
         if not scripted:
@@ -785,7 +864,8 @@ def viol_key(spec, why):
     head = parts[0].strip()
     if head in ('system', 'solve', 'update') and len(parts) > 1:
         head += ':' + parts[1].strip().split(' ')[0]
-    return '%s.step:%s' % (spec['opt'], head)
+    entry = spec.get('entry') or 'step'
+    return '%s%s.step:%s' % ('' if entry == 'step' else 'scheduler.%s:' % entry, spec['opt'], head)
 
 
 # =============================================================================================
@@ -959,6 +1039,13 @@ def gen_spec(rng, opt=None, exact=None, **force):
     # history: the judged step() is the second call on the optimizer, after a call with another step weight / target
     wr = force['warm'] if 'warm' in force else (rng.random() < 0.3)
     spec['warm'] = dict(weight=rng.random() < 0.6, target=rng.random() < 0.5) if wr else None
+    # entry point: optimizer.step itself, or its documented equivalents scheduler.optimize(input, target, weight) / the scheduler
+    # loop (StopOnPlateau with a budget of 1-2 optimizer steps, the judged step being the last one); drawn from a generator of
+    # its own so that the stream of the other choices is unchanged
+    r2 = random.Random(spec['cseed'] ^ 0x5C4ED)
+    spec['entry'] = force.get('entry') or r2.choice(['step', 'step', 'step', 'optimize', 'optimize', 'loop'])
+    spec['sched_steps'] = force.get('sched_steps') or r2.choice([1, 1, 2])
+    spec['sched_args'] = r2.choice([{}, {}, {'patience': 5}, {'patience': 1, 'decreasing': 1e-3}, {'verbose': True}, {'patience': 3, 'decreasing': 0.0, 'verbose': False}])
     return spec
 
 
@@ -1021,7 +1108,8 @@ def exact_guard(spec, rec):
 def tolerances(spec):
     exact = spec['exact']
     exactA = exact
-    exactP = exact and spec.get('script') is not None and all(p['kind'] != 'G' for p in spec['params']) and not spec.get('warm')
+    multi = (spec.get('entry') or 'step') != 'step' and spec.get('sched_steps', 1) > 1      # earlier steps of the same scheduler call
+    exactP = exact and spec.get('script') is not None and all(p['kind'] != 'G' for p in spec['params']) and not spec.get('warm') and not multi
     return ((0, 0) if exactA else (REL, None)), ((0, 0) if exactP else (REL, REL))
 
 
@@ -1150,6 +1238,20 @@ def directed_specs(rng, thorough):
     for k, form in enumerate(['tensor', 'tuple', 'list', 'dict']):
         for j, cf in enumerate(['pos', 'kw', 'pos3']):
             specs.append(gen_spec(rng, opt=('GN', 'LM')[(k + j) % 2], inp_form=form, call_form=cf, warm=bool((k + j) % 3 == 0)))
+    # documented equivalent entry points: the same step through scheduler.optimize / the scheduler loop, weight absent / at
+    # construction / at the call / both, target on and off, budget of 1 and 2 optimizer steps, first and second use of the optimizer
+    k = 0
+    for opt in ('GN', 'LM'):
+        for entry in ('optimize', 'loop'):
+            for wmode in ('step', 'both', 'init', 'none'):
+                for n in (1, 2):
+                    if entry == 'loop' and wmode in ('init', 'none') and n == 1:
+                        continue
+                    k += 1
+                    sp = gen_spec(rng, opt=opt, exact=bool(k % 2), entry=entry, wmode=wmode, sched_steps=n, warm=bool(k % 5 == 0),
+                                  call_form=['pos', 'kw', 'pos3'][k % 3], **({'strategy': 'Constant'} if (opt == 'LM' and k % 2) else {}))
+                    sp['target'] = bool((k // 2) % 2)
+                    specs.append(sp)
     # LM: clamps, strategies, scripted rejections
     for cl in ('off', 'min', 'max', 'both'):
         for st in (None, 'Constant', 'Adaptive', 'TrustRegion'):
@@ -1185,6 +1287,9 @@ def run_specs(ctx, pp, torch, specs, tag):
         ctx.count('solver-' + ('script' if spec.get('script') is not None else str(spec.get('solver')) +
                                ''.join('/%s=%s' % kv for kv in sorted((spec.get('solver_args') or {}).items()))))
         ctx.count('input-%s/call-%s%s' % (spec.get('inp_form', 'tensor'), spec.get('call_form', 'pos'), '/second-call' if spec.get('warm') else ''))
+        if (spec.get('entry') or 'step') != 'step':
+            ctx.count('entry-scheduler.%s/steps=%d/weight-%s' % (spec['entry'], spec.get('sched_steps', 1),
+                                                                ('both' if (spec.get('w_init') and spec.get('w_step')) else ('init' if spec.get('w_init') else ('step' if spec.get('w_step') else 'none')))))
         if spec.get('regression_key'):
             ctx.count('regression-' + spec['regression_key'])
         if (spec.get('w_init') or spec.get('w_step')) and spec.get('w_layout'):
